@@ -18,7 +18,9 @@ import (
 func init() { mon.Register("C14", buildC14) }
 
 var c14States = []string{"generic", "expression", "csv"}
-var c14Quotes = []rune{'\'', '"', '`', '«'}
+
+// 'Ч' (U+0427) and '•' (U+2022) share their low byte with ' and "; '%' is a format verb introducer
+var c14Quotes = []rune{'\'', '"', '`', '«', 'Ч', '•', '%'}
 
 // the tokenizer argument of a quote state's NextToken is not used by any of the
 // three states; shared read-only instances keep the cases cheap.
@@ -122,7 +124,7 @@ func buildC14(cfg *mon.Config) []*mon.Sub {
 	}
 	rt := &mon.Sub{
 		Name:          "roundtrip-and-stream-exhaustive",
-		Rule:          fmt.Sprintf("every string of length <= %d over {quote, other quote, a, é (2-byte), € (3-byte), 😀 (4-byte), space, LF} x quote in {' \" ` «} x the generic, expression and CSV quote states: decode(encode(s)) = s; for expression and CSV, encode(s)+tail (five tails) read by the state's NextToken is one token equal to encode(s), leaves the tail unread and decodes to s; non-trivial = s contains a multi-byte character or the quote", maxL),
+		Rule:          fmt.Sprintf("every string of length <= %d over {quote, other quote, a, é (2-byte), € (3-byte), 😀 (4-byte), space, LF} x quote in {apostrophe, double quote, backtick, «, Ч, •, percent sign} x the generic, expression and CSV quote states: decode(encode(s)) = s; for expression and CSV, encode(s)+tail (five tails) read by the state's NextToken is one token equal to encode(s), leaves the tail unread and decodes to s; non-trivial = s contains a multi-byte character or the quote", maxL),
 		Exhaustive:    true,
 		DistinctByGen: true,
 		Floor:         1000,
@@ -144,7 +146,7 @@ func buildC14(cfg *mon.Config) []*mon.Sub {
 		Floor: 1000,
 		Gen: func(emit func(string)) {
 			r := cfg.Rng("c14-random")
-			pool := []string{"a", "Z", "0", " ", "\n", "\r", "\t", "'", "\"", "`", "«", "»", "é", "ÿ", "ш", "€", "￾", "😀", "𝄞", "''", "\"\"", ",", ";"}
+			pool := []string{"a", "Z", "0", " ", "\n", "\r", "\t", "'", "\"", "`", "«", "»", "é", "ÿ", "ш", "€", "￾", "😀", "𝄞", "''", "\"\"", ",", ";", "\ufeff", "\u00a0", "\u2028", "%", "%s", "Ч", "•"}
 			for i := 0; i < cfg.N(30000, 2000000); i++ {
 				var b strings.Builder
 				n := r.Intn(100)
